@@ -497,4 +497,10 @@ theorem exists_lt_six (P : Nat → Prop) : (∃ n < 6, P n) ↔ P 0 ∨ P 1 ∨ 
   · rintro (h | h | h | h | h | h)
     exacts [⟨0, by omega, h⟩, ⟨1, by omega, h⟩, ⟨2, by omega, h⟩, ⟨3, by omega, h⟩, ⟨4, by omega, h⟩, ⟨5, by omega, h⟩]
 
+theorem seqRes_map_ok {α β} (f : α → Res β) (gf : α → β) : ∀ (l : List α), (∀ a ∈ l, f a = .ok (gf a)) →
+    seqRes (l.map f) = .ok (l.map gf)
+  | [], _ => rfl
+  | a :: rest, h => by
+    simp only [List.map_cons, seqRes, h a (by simp), seqRes_map_ok f gf rest (fun b hb => h b (by simp [hb]))]
+
 end Strengths
